@@ -133,3 +133,22 @@ SPECS['C13'] = dict(
     assumptions=[COMMON_ASSUME[0], COMMON_ASSUME[2], '__sanitizer_install_malloc_and_free_hooks of the clang-14 ASan runtime reports every libc malloc/free; cbor_describe is exempt from the hook window because stdio may allocate (it is still run under the tagging allocator)'],
     level_text='Exploration: bypass detection is by construction (no libc backing + armed hooks), on every allocation site that the generated histories and inputs reach.',
     level_note='Allocation sites not reached by the generators are not covered; fault paths (release after a refused allocation) are covered by running C06 scenarios under the tagging allocator, not under the arena.')
+
+def scalar_jobs(tier, seed):
+    if tier == 'thorough':
+        return [Job('drv_scalar', 'plain-O2', [], shards=NCPU, timeout=7200), Job('drv_scalar', 'asan', ['--tier', 'quick'], shards=NCPU, timeout=3600)]
+    return [Job('drv_scalar', 'asan', [], shards=NCPU, timeout=3600)]
+
+SPECS['C15'] = dict(
+    jobs=scalar_jobs, level='exploration', technique='exhaustive / strided bit-pattern sweeps compared with an independent integer-arithmetic IEEE-754 conversion',
+    rule='HALF: all 65536 half patterns (exhaustive, both tiers). SINGLE: all 2^32 patterns in the thorough tier (optimised build) / every 211th pattern plus every exponent x 12 boundary mantissas in the quick tier. DOUBLE: every exponent x 14 boundary mantissas x both signs, every single-bit NaN payload, seeded 64-bit patterns. ENCHALF: floats (all 2^32 thorough, strided + boundary quick) handed to cbor_encode_half. Oracle per pattern: the streaming decoder fires exactly the float callback of that width with the bit-exact IEEE value (NaN: any NaN); cbor_load records the width and stores the same bits; cbor_float_get_float widens exactly; cbor_serialize, cbor_encode_* (on the decoded value and on the original pattern) and a built item reproduce the original bytes, NaN as 7E00 / 7FC00000 / 7FF8000000000000; cbor_encode_half returns 3 bytes F9xxxx for every float (UBSan on), exact for half-representable values, 0 and untouched buffer when too small. Non-trivial = zero, subnormal, infinity, NaN or a mantissa within 2 ulp of a binade boundary; distinct by (width, pattern).',
+    assumptions=[COMMON_ASSUME[0], 'the reference conversions (half<->single, single->double by integer bit manipulation in src/ref/refcbor.hpp and drv_scalar.cpp) are correct', COMMON_ASSUME[2]],
+    level_text='Exploration: halves exhaustive in both tiers, singles exhaustive in the thorough tier, doubles on a dense boundary grid plus seeded patterns.',
+    level_note='The thorough exhaustive single sweep runs on an optimised build without sanitizers; the sanitizer build covers the strided sweep.')
+
+SPECS['C16'] = dict(
+    jobs=scalar_jobs, level='exploration', technique='exhaustive short byte sequences + structured fault injection, compared with an independent RFC 3629 range-table validator',
+    rule='UTF8: every byte sequence of length 0..3 (thorough 0..4). UTF8F: 1..6 scalars from every length class and boundary separated by ASCII runs of 0..40 bytes with one injected fault (stray continuation, C0/C1/F5..FF, overlong 2/3/4-byte, surrogate, > U+10FFFF, truncation, dropped continuation, ASCII run inside a multi-byte sequence, arbitrary byte) or none. Each sequence is attached with cbor_build_stringn (and copied), cbor_new_definite_string + cbor_string_set_handle (fresh item, and re-attached to an item that held valid text), cbor_build_string (NUL-free), and decoded by cbor_load with the shortest and the next wider head and as a chunk. Oracle: cbor_string_codepoint_count == scalar count if valid per the reference validator else 0; length and bytes unchanged; cbor_load never rejects because of content. Non-trivial = sequence containing a byte >= 0x80; distinct by bytes.',
+    assumptions=[COMMON_ASSUME[0], 'the reference validator (range tables of RFC 3629 sect. 4 in src/ref/refcbor.hpp) is correct', COMMON_ASSUME[2]],
+    level_text='Exploration: exhaustive over all sequences up to 3 (4) bytes, which covers every lead/continuation combination; longer strings by structured sampling.',
+    level_note='Long strings are sampled; optimisations keyed to long aligned runs are targeted by the ASCII-run generator but not exhaustively.')
